@@ -210,6 +210,23 @@ def check_property(prop, tier, spec):
             functions.update(rr.get('functions', []))
             if rr['outcome'] == 'ok' and set(s['goals']) <= set(rr['goals']):
                 validated += 1
+            elif rr['outcome'] == 'violation':
+                # the solver-generated values of a path that the engine considered fine violate the property when run on
+                # plain CPython (the engine's model of some built-in, e.g. set iteration order, differs from CPython's):
+                # a concrete execution of the real code is a counterexample in its own right
+                case = {'property': prop, 'harness': next(r['spec']['harness'] for r in results if r['job'] == job),
+                        'shape': s['shape'], 'args': s['args'], 'weights': s['weights'], 'label': rr['label'],
+                        'detail': rr.get('detail', ''), 'job': job, 'analysis': s.get('sub'),
+                        'found_by': 'concrete replay of a solver-generated sample path'}
+                h = hashlib.sha1(json.dumps(case, sort_keys=True).encode()).hexdigest()[:10]
+                rpath = os.path.join(ROOT, 'replays', f'{prop}-{job}-{h}.json')
+                with open(rpath, 'w') as fp:
+                    json.dump(case, fp, indent=1)
+                p = subprocess.run([PLAIN_PY, '-m', 'engine.replay', rpath], cwd=ROOT, env=_env(), capture_output=True, text=True, timeout=600)
+                if p.returncode == 0:
+                    violations.append((job, rr['label'], rr.get('detail', '') + ' [found by replaying a sample path on CPython]', rpath))
+                else:
+                    harness_errors.append(f'sample path of job {job}: violation on replay did not reproduce')
             elif not violations:
                 harness_errors.append(f'sample path of job {job} does not replay identically: symbolic goals '
                                       f'{s["goals"]} vs concrete {rr["outcome"]} {rr.get("label")} {rr["goals"]} '
